@@ -17,6 +17,7 @@ import (
 	"encoding/hex"
 	"fmt"
 	"strings"
+	"sync"
 
 	"github.com/klauspost/compress/zstd"
 	"github.com/ulikunitz/xz"
@@ -196,7 +197,7 @@ func genContent(ch chooser, mode string) Content {
 		return Content{Kind: "zeros", N: []int{1024, 0, 1, 511, 512, 1536, 4608, 10240}[ch.Int(0, 7, "zeros")]}
 	case 2:
 		c := Content{Kind: "tar", Seed: ch.Int(0, 50, "cseed")}
-		switch weighted(ch, "comp", 56, 30, 7, 7) {
+		switch weighted(ch, "comp", 60, 30, 5, 5) {
 		case 1:
 			c.Gzip = true
 		case 2:
@@ -671,6 +672,19 @@ func fill(seed, n int) []byte {
 	return b
 }
 
+var (
+	zstdOnce sync.Once
+	zstdEnc  *zstd.Encoder
+)
+
+// zstdEncoder is one shared single-threaded encoder (creating one per content is expensive).
+func zstdEncoder() *zstd.Encoder {
+	zstdOnce.Do(func() {
+		zstdEnc, _ = zstd.NewWriter(nil, zstd.WithEncoderConcurrency(1), zstd.WithEncoderLevel(zstd.SpeedFastest))
+	})
+	return zstdEnc
+}
+
 // expand builds the content bytes of a Content description (pure).
 func expand(c Content) []byte {
 	switch c.Kind {
@@ -689,11 +703,8 @@ func expand(c Content) []byte {
 		_ = tw.Close()
 		switch c.Comp {
 		case "zstd":
-			enc, err := zstd.NewWriter(nil)
-			if err == nil {
-				out := enc.EncodeAll(buf.Bytes(), nil)
-				_ = enc.Close()
-				return out
+			if enc := zstdEncoder(); enc != nil {
+				return enc.EncodeAll(buf.Bytes(), nil)
 			}
 		case "xz":
 			var xb bytes.Buffer
